@@ -60,6 +60,9 @@ func parseXML(data []byte) (*XNode, error) {
 		case xml.StartElement:
 			n := &XNode{Name: t.Name.Local, Space: t.Name.Space, Attrs: map[string]string{}}
 			for _, a := range t.Attr {
+				if a.Name.Space == "xmlns" || (a.Name.Space == "" && a.Name.Local == "xmlns") {
+					continue // a namespace declaration, not an attribute
+				}
 				n.Attrs[a.Name.Local] = a.Value
 			}
 			if len(stack) > 0 {
